@@ -313,6 +313,19 @@ bool findChain(const lat::Lat &L, const std::vector<Seg> &segs, size_t i, int no
   return false;
 }
 
+// small lattices are shown whole in failure messages
+std::string latDump(const lat::Lat &L) {
+  if (L.nodes.size() > 14) return "";
+  std::ostringstream o;
+  o << "\n lattice:";
+  for (size_t n = 0; n < L.nodes.size(); ++n) {
+    o << " [" << L.nodes[n].word << "@" << L.nodes[n].sf << " ef " << L.nodes[n].fef << ".." << L.nodes[n].lef << ((int)n == L.start ? " START" : "") << ((int)n == L.end ? " END" : "") << " ->";
+    for (int li : L.nodes[n].out) o << " " << L.nodes[L.links[li].to].word << "@" << L.nodes[L.links[li].to].sf << "(ef " << L.links[li].ef << ")";
+    o << "]";
+  }
+  return o.str();
+}
+
 Verdict oracleC11(decoder_t *d, lattice_t *dag, const Obs &o, const fsa::Fsa &gEps, bool final, Ctx &ctx) {
   const char *when = final ? "final" : "partial";
   lat::Lat L = lat::read(dag);
@@ -334,7 +347,9 @@ Verdict oracleC11(decoder_t *d, lattice_t *dag, const Obs &o, const fsa::Fsa &gE
       continue;
     }
     if (lat::synthetic(L, l.to)) {
-      PBT_CHECK(u.lef == L.nframes - 1, "link-adjacency", when << ": " << u.word << "@" << u.sf << " (last end frame " << u.lef << ") links to the synthetic end of a " << L.nframes << "-frame lattice");
+      // the synthetic end starts in the frame after the last exits (the last frame of the utterance, or earlier when
+      // the results end before it): every word instance linked to it ends exactly one frame before
+      PBT_CHECK(u.lef + 1 == v.sf && v.sf <= L.nframes, "link-adjacency", when << ": " << u.word << "@" << u.sf << " (last end frame " << u.lef << ") links to the synthetic end at frame " << v.sf << " of a " << L.nframes << "-frame lattice");
       continue;
     }
     PBT_CHECK(v.sf == l.ef + 1, "link-adjacency", when << ": link " << u.word << "@" << u.sf << " -> " << v.word << "@" << v.sf << " ends at frame " << l.ef);
@@ -382,7 +397,7 @@ Verdict oracleC11(decoder_t *d, lattice_t *dag, const Obs &o, const fsa::Fsa &gE
         if (real.size() == 1) cls += ":single-segment";
         else if (findChain(L, head, 0, -1, chain)) cls += ":last-segment-missing";
         if (!isKnown(cls) || c_probeKnown)
-          return Verdict::fail(cls, Msg() << when << ": the first-best segmentation " << o.str() << " is not a chain of linked lattice nodes (" << L.nodes.size() << " nodes, end node " << L.nodes[L.end].word << "@" << L.nodes[L.end].sf << ")");
+          return Verdict::fail(cls, Msg() << when << ": the first-best segmentation " << o.str() << " is not a chain of linked lattice nodes (" << L.nodes.size() << " nodes, end node " << L.nodes[L.end].word << "@" << L.nodes[L.end].sf << ")" << latDump(L));
         ctx.label("known-class-not-asserted:" + cls);
       }
       ctx.labelIf(real.size() == 1, "first-best-single-segment");
